@@ -12,10 +12,23 @@ With --keep-as the seed is stored as /verif/seeded/<NAME>/ (patch.diff, demo.py,
 """
 import argparse, json, os, shutil, subprocess, sys, tempfile, time
 
+def snapshot():
+    """a private copy of the machinery, so that edits in /verif during a long evaluation cannot
+    change the checks half-way, and the evaluation does not overwrite /verif/evidence"""
+    snap = tempfile.mkdtemp(prefix='vs.', dir='/tmp')
+    for n in ('mc', 'check', 'known_findings.json', 'findings', 'properties.jsonl', 'selftest'):
+        src = os.path.join('/verif', n)
+        (shutil.copytree if os.path.isdir(src) else shutil.copy)(src, os.path.join(snap, n))
+    return snap
+
 def sh(cmd, **kw):
     return subprocess.run(cmd, capture_output=True, text=True, **kw)
 
+SNAP = None
+
 def main():
+    global SNAP
+    SNAP = snapshot()
     ap = argparse.ArgumentParser()
     ap.add_argument('seed'); ap.add_argument('props', nargs='+')
     ap.add_argument('--keep-as'); ap.add_argument('--tier', default='quick'); ap.add_argument('--no-tests', action='store_true')
@@ -50,7 +63,7 @@ def main():
         for p in a.props:
             env = dict(os.environ, VERIF_REPO=d)
             t0 = time.time()
-            r = sh(['/verif/check', p, '--tier', a.tier], env=env)
+            r = sh([os.path.join(SNAP, 'check'), p, '--tier', a.tier], env=env)
             lines = r.stdout.strip().splitlines()
             viol = [l for l in lines if l.startswith('VIOLATION')]
             kinds = sorted({l.strip().split(' cls=')[0] for l in lines if l.strip().startswith('kind=')})
@@ -70,7 +83,7 @@ def main():
             json.dump(meta, open(os.path.join(dst, 'meta.json'), 'w'), indent=1)
         return 0
     finally:
-        sh(['git', '-C', '/repo', 'worktree', 'remove', '--force', d]); shutil.rmtree(d, ignore_errors=True)
+        sh(['git', '-C', '/repo', 'worktree', 'remove', '--force', d]); shutil.rmtree(d, ignore_errors=True); shutil.rmtree(SNAP, ignore_errors=True)
 
 if __name__ == '__main__':
     sys.exit(main())
